@@ -72,6 +72,10 @@ def atom_matches(atom: dict, op: dict) -> bool:
     if value is None:
         return False
     values = value if isinstance(value, list) else [value]
+    if atom["attr"] == "method" and kind in ("value", "list"):
+        # HTTP methods are compared without regard to letter case, whether one is given or several
+        wanted = [atom["arg"].upper()] if kind == "value" else [m.upper() for m in atom["arg"]]
+        return any(v.upper() in wanted for v in values)
     if kind == "value":
         return any(v == atom["arg"] for v in values)
     if kind == "list":
